@@ -46,6 +46,8 @@ void vs_sleep_ms(double ms);
 uint64_t vs_now_ns(void);
 int vs_self(void);
 int vs_active(void);
+int vs_thread_count(void);            // controlled threads created so far (the next one gets this id)
+unsigned vs_sleeps_of(int tid);        // completed or pending virtual sleeps of a thread
 // trace annotation shown by --replay (no scheduling effect)
 void vs_note(const char* fmt, ...) __attribute__((format(printf, 1, 2)));
 // last error lines reported through the runtime's logger (harness reporter calls vs_log)
